@@ -8,6 +8,7 @@ From V.model Require Import MCassette MDisk.
 From V.model Require MText MValues MOperands MProgram.
 From V.spec Require Spec6809.
 From V.model Require MVirtualFile.
+From V.model Require MCli.
 From Coq Require Import Extraction ExtrOcamlBasic.
 Extraction Language OCaml.
 
@@ -39,9 +40,10 @@ Definition x_vf_convert := MVirtualFile.convert.
 Definition x_vf_image_after := MVirtualFile.image_after.
 Definition x_vf_file_util := MVirtualFile.file_util.
 Definition x_vf_asm_save := MVirtualFile.asm_save.
+Definition x_cli_main := MCli.assembler_main.
 
 Extraction "model.ml"
-  x_vf_sniff x_vf_store x_vf_convert x_vf_image_after x_vf_file_util x_vf_asm_save
+  x_vf_sniff x_vf_store x_vf_convert x_vf_image_after x_vf_file_util x_vf_asm_save x_cli_main
   x_asm x_v_int x_decode x_canon x_regpair_legal x_opcode_entry x_all_opcodes
   x_cas_write x_cas_parse x_cas_list
   x_dsk_add x_dsk_image x_dsk_fsck x_dsk_files x_dsk_list x_dsk_free x_dsk_needed x_dsk_default_order x_dsk_layout_ok.
